@@ -107,4 +107,18 @@ def oracle10m (cur : World) (op : Op) (codes : List (List Nat)) : Bool :=
   | some e => poolCodes codes == sortCodes e
   | none => true
 
+/-- C15 (fault injection): the `k`-th message of the response the model computes without fault is made
+    to fail; then the operation as a whole must fail (`ioOk = false`) and leave the world as it was
+    (`unchanged`). `true` = fine. -/
+def oracle15 (cur : World) (op : Op) (k : Nat) (ioOk unchanged : Bool) : Bool :=
+  let mo0 := (stepF noFault cur op).2
+  !(mo0.ok && decide (k < mo0.msgs.length) && (ioOk || !unchanged))
+
+/-- C10 (fault injection): the message made to fail is the community-pool deposit; then the
+    proceeds must not leave (`ioOk = false`). `true` = fine. -/
+def oracle10f (cur : World) (op : Op) (k : Nat) (ioOk : Bool) : Bool :=
+  let mo0 := (stepF noFault cur op).2
+  !(mo0.ok && decide (k < mo0.msgs.length) && ioOk &&
+    (match mo0.msgs[k]? with | some (.fundPool ..) => true | _ => false))
+
 end Fuzion.Orc
